@@ -388,7 +388,7 @@ theorem matcherClause_noDate (field : String) (hf : isDateCol field = false) (op
     subst h
     split <;> simp [PCond.noDate, hf]
 
-theorem clauseOf_noDate (s : Selector) (g : PCond) (h : clauseOf s = some (.inl g)) : g.noDate = true := by
+theorem clauseOf_noDate (gre : Bytes → Bytes → Bool) (s : Selector) (g : PCond) (h : clauseOf gre s = some (.inl g)) : g.noDate = true := by
   unfold clauseOf at h
   split at h
   · next field inArr hp =>
@@ -402,10 +402,15 @@ theorem clauseOf_noDate (s : Selector) (g : PCond) (h : clauseOf s = some (.inl 
       subst h
       have := matcherClause_noDate field hfield _ _ c hm
       split <;> simp [PCond.noDate, this]
-  · cases hm : matcherClause "val" s.op (selVal s) <;> simp [hm] at h
+  · exfalso
+    cases ho : (if acceptsEmptyP gre s = true then invOp s.op else some s.op) with
+    | none => simp [ho] at h
+    | some op =>
+      simp only [ho, Option.bind_some] at h
+      cases hm : matcherClause "val" op (selVal s) <;> simp [hm] at h
 
 /-- **plan_noDate.** the global conditions of every selector list -/
-theorem plan_noDate (table : String) (a b : Bytes) : ∀ (sels : List Selector) (q : PQuery), Prof.plan table a b sels = some q →
+theorem plan_noDate (gre : Bytes → Bytes → Bool) (table : String) (a b : Bytes) : ∀ (sels : List Selector) (q : PQuery), Prof.plan gre table a b sels = some q →
     ∀ g ∈ q.globals, g.noDate = true := by
   intro sels
   induction sels with
@@ -419,7 +424,7 @@ theorem plan_noDate (table : String) (a b : Bytes) : ∀ (sels : List Selector) 
       intro x hx
       simp only [List.mem_cons] at hx
       rcases hx with rfl | hx
-      · exact clauseOf_noDate s _ hc
+      · exact clauseOf_noDate gre s _ hc
       · exact ih q0 hq0 x hx
     · rename_i k q0 _ hq0
       injection h with h; subst h
